@@ -2,7 +2,8 @@
 THEOREMS_TIED = ["Rustic.Props.C13.treeStreamerOnce_any_order", "Rustic.Props.C13.treeStreamerOnce_terminates",
                  "Rustic.Props.C13.every_written_pack_indexed", "Rustic.Props.C13.stored_set_schedule_independent",
                  "Rustic.Props.C13.treeId_independent_of_index", "Rustic.Props.C13.pipeline_progress",
-                 "Rustic.Props.C13.network_progress", "Rustic.Props.C13.archiver_network_progress"]
+                 "Rustic.Props.C13.network_progress", "Rustic.Props.C13.archiver_network_progress",
+                 "Rustic.Props.C13.snapshot_is_function_of_source"]
 
 TRUSTED = [
     "hand-written nondeterministic models lean/Rustic/Model/Streamer.lean (TreeStreamerOnce, channel line) and Model/Archive.lean part 2 (packer / file writer / indexer events)",
